@@ -23,7 +23,7 @@ func init() { rt.AfterCase = canary }
 
 func canary(c *rt.C) {
 	switch c.Runner().Prop {
-	case "C08", "C09", "C10", "C17", "C18":
+	case "C06", "C08", "C09", "C10", "C17", "C18":
 	default:
 		return
 	}
